@@ -31,7 +31,7 @@ fn plant_errors(b: &mut Built, ch: &mut Ch) -> usize {
                         .map(|(k, c)| if k == 0 { Entry::Paren(bad()) } else if c.role == ColRole::ExpectedOnly { Entry::X(true) } else { Entry::Num(0, Radix::Dec) })
                         .collect()
                 };
-                let st = match ch.upto(4) {
+                let st = match ch.upto(5) {
                     0 => {
                         *next_id += 1;
                         Stmt::Row(*next_id - 1, row(0))
@@ -41,10 +41,12 @@ fn plant_errors(b: &mut Built, ch: &mut Ch) -> usize {
                         *next_id += 1;
                         Stmt::Repeat(Expr::lit(2), *next_id - 1, row(0))
                     }
-                    _ => {
+                    3 => {
                         *next_id += 1;
                         Stmt::Loop("zq".into(), bad(), vec![Stmt::Row(*next_id - 1, row(0))])
                     }
+                    // the bound is evaluated on entry whether or not the body holds anything
+                    _ => Stmt::Loop("zq".into(), bad(), vec![]),
                 };
                 bl.insert(i, st);
                 *planted += 1;
@@ -83,7 +85,7 @@ impl Property for C01 {
         "C01"
     }
     fn rule(&self) -> &'static str {
-        "profile `flow`: programs (nesting <= 5) of let/loop/repeat/while/resetRandom/rows decoded from a choice stream, bounds from {literals -3..4, variables, arithmetic on counters, device reads}, total expressions, values masked to fit; oracle = reference interpreter trace (row count, per row inputs + expected values, end of iteration). Non-trivial: source has nesting>=2 | bound<=0 reached | computed/device bound | shadowing | let in loop body | loop inside while, and the run yields >= 2 rows; distinct by hash of source + signal list + driver script."
+        "profile `flow`: programs (nesting <= 5) of let/loop/repeat/while/resetRandom/rows decoded from a choice stream, bounds from {literals -3..4, variables, arithmetic on counters, device reads}, total expressions, values masked to fit; in a third of the cases 1-3 statements that divide by a literal zero are planted (row, let, repeat row, loop bound with and without a body) and the caller goes on after each error item; in a fifth the driver's answer to one call is malformed (that row is an error item, the caller goes on); sub-profile `names` (a quarter): no device reads, variables and counters may be named like output signals, the device answers differently on every call (elsewhere: no signal-named variables, a device that answers the same on every call); oracle = reference interpreter trace (row count, per row inputs + expected values, end of iteration). Non-trivial: source has nesting>=2 | bound<=0 reached | computed/device bound | shadowing | let in loop body | loop inside while, and the run yields >= 2 rows; distinct by hash of source + signal list + driver script."
     }
     fn cases(&self, tier: Tier) -> u64 {
         match tier {
@@ -92,7 +94,7 @@ impl Property for C01 {
         }
     }
     fn required_classes(&self) -> Vec<&'static str> {
-        vec!["nesting>=2", "bound<=0-reached", "shadowing", "let-in-loop-body", "loop-in-while", "reads-device", "repeat", "bits()", "bits(k>=33)", "bits(0)", "planted-error-statements", "row-in-loop-after-error-item"]
+        vec!["nesting>=2", "bound<=0-reached", "shadowing", "let-in-loop-body", "loop-in-while", "reads-device", "repeat", "bits()", "bits(k>=33)", "bits(0)", "planted-error-statements", "row-in-loop-after-error-item", "names-sub-profile", "rows-after-malformed-answer", "empty-loop-body"]
     }
     fn assumptions(&self) -> Vec<&'static str> {
         vec![
@@ -106,7 +108,16 @@ impl Property for C01 {
         out.fuel_is_violation = true;
         let mut cfg = flow_cfg();
         // one case in twelve has a wide bus so that bits(k,e) with k up to 64 occurs
-        cfg.bus = Ch::new(&s[1]).chance(1, 12);
+        let mut lch = Ch::new(&s[1]);
+        cfg.bus = lch.chance(1, 12);
+        // sub-profile `names` (one case in four): the program never reads the device, but its
+        // variables and counters may be named like output signals, and the device answers
+        // differently on every call. A `let` binds a variable whatever the device shows.
+        let names = lch.chance(1, 4);
+        if names {
+            cfg.vars_like_signals = true;
+            cfg.reads = false;
+        }
         let mut built = gen_case(&mut Ch::new(&s[0]), &cfg);
         parenthesise_program(&mut built.prog.stmts);
         // In a third of the cases statements that cannot be evaluated (division by literal
@@ -141,7 +152,30 @@ impl Property for C01 {
                 both_driver_types: false,
             },
         );
-        let spec = DriverSpec { constant: true, ..spec };
+        let mut spec = DriverSpec { constant: !names, ..spec };
+        out.class_if(names, "names-sub-profile");
+        // in a fifth of the cases the driver's answer to one call is malformed (an entry dropped
+        // or repeated, two entries swapped): that row is an error item, the caller goes on, and the sequential
+        // reading continues with an unchanged environment
+        {
+            let mut fch = Ch::new(&s[2]);
+            let _ = (fch.u64(), fch.u64());
+            if fch.chance(1, 5) {
+                let p = fch.upto(8);
+                // (an answer that lacks an output leaves later reads of that output without a
+                // value: entries are only dropped where the program reads nothing)
+                let drop = fch.chance(1, 2) && built.analysis.reads.is_empty();
+                let dev = if drop {
+                    Deviation::Drop(p)
+                } else if fch.chance(1, 2) {
+                    Deviation::Duplicate(p)
+                } else {
+                    // same entries, another order
+                    Deviation::Swap(p, p + 1 + fch.upto(3))
+                };
+                spec.deviate_at = Some((1 + fch.upto(12), dev));
+            }
+        }
         render_case(&mut out, &text, &built.sigs, Some(&spec));
         let f = feats(&built);
         feat_classes(&mut out, &f);
@@ -166,6 +200,12 @@ impl Property for C01 {
             return out;
         };
         let real = run_real(&tc, &built.sigs, &spec, &RunOpts { max_next: next_budget(&t), fuel: fuel_for(t.facts.steps), continue_after_error: true, ..Default::default() });
+        let mut t = t;
+        if excuse_malformed_answer(&mut t, &real, &spec) {
+            out.class("malformed-answer-error-item");
+            let k = t.items.iter().position(|i| matches!(i, ri::RiItem::Hazard { hazard: ri::Hazard::Unresolved(m), .. } if m == "malformed driver answer")).unwrap_or(0);
+            out.class_if(t.items.iter().skip(k + 1).any(|i| matches!(i, ri::RiItem::Row(_))), "rows-after-malformed-answer");
+        }
         if let Some((k, m)) = trace_diff(&t, &real, Projection::INPUTS_EXPECTED) {
             if !k.starts_with("panic:") && !still_differs_with_real_call_indices(&built.prog, &built.sigs, &spec, &ropts, &real, Projection::INPUTS_EXPECTED) {
                 out.class("difference-caused-by-call-protocol-only");
